@@ -436,5 +436,7 @@ def subspace_minimization(
             else 1.0
         ),
     )
-    # Eq (5.2) -> update free variables only
-    return xc + alpha_star * Z @ dHat
+    # Eq (5.2) -> update free variables only. alpha_star keeps the point in the box
+    # in exact arithmetic only (xc + ((ub - xc) / dHat) * dHat can exceed ub by
+    # rounding), hence the projection
+    return np.clip(xc + alpha_star * Z @ dHat, lb, ub)
